@@ -183,9 +183,11 @@ func (r *Rediaron) NodeStatusStream(ctx context.Context) chan *types.NodeStatus 
 		logger.Infof(ctx, "watch on %s", key)
 		for message := range r.KNotify(ctx, key) {
 			nodename := extractNodename(message.Key)
+			action := strings.ToLower(message.Action)
 			status := &types.NodeStatus{
 				Nodename: nodename,
-				Alive:    strings.ToLower(message.Action) != actionExpired,
+				// the status is gone when it expired and when it was deleted
+				Alive: action != actionExpired && action != actionDel,
 			}
 			node, err := r.GetNode(ctx, nodename)
 			if err != nil {
